@@ -45,11 +45,12 @@ ASSUME SampleEvalAgree /\ VariantsRejected /\ JacobianIncluded
 \*   "revdict"  bounds mapping written in the reverse order of the parameter list
 \* scale: width of the declared support of the second parameter - order one, tiny (2e-5: a clipping
 \* margin must be a fraction of the width, not an absolute distance), huge (4e6), or "free": the
-\* second parameter has no finite bounds, so bounded and unbounded parameters are mixed
+\* second parameter has no finite bounds, so bounded and unbounded parameters are mixed; "offset":
+\* an interval narrow relative to where it sits ([1000, 1000.5], a time stamp)
 Cells == { [backend |-> b, bounded |-> bt, affine |-> a, dtype |-> d, state |-> s, refit |-> r, names |-> nm, scale |-> sc] :
              b \in {"zuko", "flowjax"}, bt \in {"logit", "probit", "off"}, a \in BOOLEAN,
              d \in {"float32", "float64"}, s \in {"untrained", "trained", "reloaded"}, r \in BOOLEAN,
-             nm \in {"sorted", "unsorted", "revdict"}, sc \in {"unit", "tiny", "huge", "free"} }
+             nm \in {"sorted", "unsorted", "revdict"}, sc \in {"unit", "tiny", "huge", "free", "offset"} }
 ASSUME PrintT(<<"NCASES", Cardinality(Cells)>>)
 ASSUME JsonSerialize(IOEnv.OUT_FILE, [cells |-> SetToSeq(Cells), shift_log_prob |-> ShiftLogProb(5),
                                        shift_sample_log_q |-> ShiftSampleLogQ(5)])
